@@ -4,6 +4,7 @@
    dependencies: nothing below is about them. -/
 import LdkModel.Proofs.Bech32
 import LdkModel.Proofs.Merkle
+import LdkModel.Proofs.Bolt11
 import LdkModel.Proofs.OfferMeta
 namespace Ldk.C18
 open Ldk.Prim.Bech32
@@ -49,6 +50,36 @@ theorem bech32_single_symbol_detected (hrp : List UInt8) (pre post : List U5) (a
 example : verifyChecksum [0x61] [10, 28, 25, 31, 20, 31] = true := by decide
 example : verifyChecksum [0x61] [10, 28, 25, 31, 20, 30] = false :=
   bech32_single_symbol_detected [0x61] [10, 28, 25, 31, 20] [] 31 30 (by decide) (by decide)
+
+/-! ## BOLT-11: data part -/
+section bolt11
+open Ldk.Bolt11
+
+/-- Tagged-field framing round trip: for a 35-bit timestamp and fields whose payloads fit the 10-bit
+    length (what `write_tagged_field` asserts), parsing the serialised data part gives back exactly
+    the timestamp and the (tag, payload) list — no field is merged, split, dropped or reordered. -/
+theorem bolt11_data_roundtrip (ts : Nat) (fs : List (U5 × List U5)) (hts : ts < 2 ^ 35)
+    (hw : ∀ f ∈ fs, f.2.length < 1024) : parseData (serializeData ts fs) = .ok (ts, fs) := by
+  unfold parseData serializeData
+  have h7 := encodeTimestamp_length ts hts
+  have hlen : ¬ (encodeTimestamp ts ++ encodeFields fs).length < 7 := by simp [h7]
+  simp only [hlen, ↓reduceIte, List.drop_left' h7, List.take_left' h7]
+  rw [splitTagged_encodeFields fs _ hw (by simp)]
+  simp [parseIntBe_encodeTimestamp]
+
+/-- The parser the driver runs (`parseTagged`, which interprets each field before looking at the
+    next, like de.rs) agrees with framing-then-interpretation whenever it succeeds. -/
+theorem parseTagged_eq_split_interp (fuel : Nat) (d : List U5) (fs : List Field)
+    (h : parseTagged fuel d = .ok fs) :
+    ∃ raw, splitTagged fuel d = .ok raw ∧ interpFields raw = .ok fs :=
+  parseTagged_ok fuel d fs h
+
+/-- non-vacuity: a `p` field of 52 symbols and an empty `d` field after timestamp 1 -/
+example : parseData (serializeData 1 [(1, List.replicate 52 3), (13, [])])
+    = .ok (1, [(1, List.replicate 52 3), (13, [])]) :=
+  bolt11_data_roundtrip 1 _ (by decide) (by decide)
+
+end bolt11
 
 /-! ## BOLT-12: merkle root binding -/
 section merkle
